@@ -831,7 +831,27 @@ def np_einsum(it, expr, *ops, **k):
         raise Unsupported('einsum on symbolic-shape arrays (use the linear-operator contract)')
     expr = expr.replace(' ', '')
     if '...' in expr:
-        raise Unsupported('einsum ellipsis')
+        # expand the ellipsis into explicit (upper-case) subscripts, numpy broadcasting rules for equal-rank ellipses
+        lhs, _, rhs = expr.partition('->')
+        subs = lhs.split(',')
+        nell = 0
+        for sub, o in zip(subs, ops):
+            if '...' in sub:
+                nell = max(nell, o.ndim - (len(sub) - 3))
+        letters = 'ABCDEFGH'[:nell]
+        new_subs = []
+        for sub, o in zip(subs, ops):
+            if '...' in sub:
+                r = o.ndim - (len(sub) - 3)
+                new_subs.append(sub.replace('...', letters[nell - r:]))
+            else:
+                new_subs.append(sub)
+        if '->' in expr:
+            rhs = rhs.replace('...', letters)
+        else:
+            plain = ''.join(new_subs)
+            rhs = letters + ''.join(sorted(c for c in set(plain) if c.islower() and plain.count(c) == 1))
+        expr = ','.join(new_subs) + '->' + rhs
     if '->' in expr:
         ins, out = expr.split('->')
     else:
@@ -1056,6 +1076,11 @@ def np_add_at(it, a, idx, v):
         vd = A.as_data(v)
         tgt_shape = a.data[ci].shape if isinstance(a.data[ci], np.ndarray) else ()
         vb = np.broadcast_to(vd, tgt_shape) if isinstance(vd, np.ndarray) else None
+        if isinstance(ci, np.ndarray) and ci.ndim >= 2 and a.ndim == 1:
+            vv = np.broadcast_to(vd, ci.shape) if isinstance(vd, np.ndarray) else None
+            for o in np.ndindex(*ci.shape):
+                a.data[ci[o]] = V.add(a.data[ci[o]], vv[o] if vv is not None else vd)
+            return None
         if isinstance(ci, np.ndarray) and ci.ndim == 1:
             for t, k in enumerate(ci):
                 a.data[k] = elementwise(ctx, V.add, wrap(a.data[k]) if isinstance(a.data[k], np.ndarray) else a.data[k],
@@ -1629,3 +1654,23 @@ def np_isin(it, a, b, **k):
 NP[('np', 'bitwise_or')] = NP[('np', 'logical_or')]
 NP[('np', 'bitwise_and')] = NP[('np', 'logical_and')]
 NP[('np', 'bitwise_not')] = NP[('np', 'logical_not')]
+
+
+@np_fn('count_nonzero')
+def np_count_nonzero(it, a, axis=None, **k):
+    a = a if is_arr(a) else to_carr(a)
+    if not isinstance(a, CArr):
+        raise Unsupported('count_nonzero of a symbolic-shape array')
+
+    def nz(v):
+        if not is_sym(v) and not isinstance(v, Cx):
+            return 1 if V.exact(v) != 0 else 0
+        f = V.zbool(V.cmp('!=', v, 0))
+        if V.ORACLE is not None:
+            if V.ORACLE(f):
+                return 1
+            if V.ORACLE(z3.Not(f)):
+                return 0
+        return V.ite(f, 1, 0)
+    flags = CArr(uf(nz, 1)(a.data), 'int')
+    return reduce_axis(it.ctx, V.add, flags, axis, 0)
